@@ -119,15 +119,25 @@ Proof.
 Qed.
 
 (* markerIndex (markerName n) = n: an alias identifies its output *)
-Lemma marker_roundtrip n : marker_index (marker_name n) = Some n.
+Lemma marker_roundtrip n : (N.of_nat n <= max_int)%N -> marker_index (marker_name n) = Some n.
 Proof.
-  unfold marker_index, marker_name. rewrite has_prefix_app, skipn_app_exact.
-  unfold itoa_nat. rewrite atoi_itoa_full. f_equal. lia.
+  intros B. unfold marker_index, marker_name. rewrite has_prefix_app, skipn_app_exact.
+  unfold itoa_nat. rewrite atoi_itoa_full.
+  apply N.leb_le in B. rewrite B. f_equal. lia.
+Qed.
+
+(* above the largest int the name is not a marker (strconv.Atoi: value out of range) *)
+Lemma marker_overflow n : (max_int < N.of_nat n)%N -> marker_index (marker_name n) = None.
+Proof.
+  intros B. unfold marker_index, marker_name. rewrite has_prefix_app, skipn_app_exact.
+  unfold itoa_nat. rewrite atoi_itoa_full.
+  apply N.leb_gt in B. rewrite B. reflexivity.
 Qed.
 
 Lemma marker_name_inj a b : marker_name a = marker_name b -> a = b.
 Proof.
-  intros H. pose proof (marker_roundtrip a) as Ha. rewrite H, marker_roundtrip in Ha. congruence.
+  unfold marker_name. intros H. apply app_inv_head in H. unfold itoa_nat in H.
+  apply itoa_inj in H. lia.
 Qed.
 
 (* --------------------------------------------------- samples (C07) -- *)
